@@ -217,6 +217,10 @@ theorem hash_shape (C : Crypto) (hC : HashWF C) (bs : Array Bytes) (c : Core) (d
   have hup : cs.upgraded = false := by rw [← hcs]; rfl
   have hnodes : cs.nodes = nodeAt C bs d0 o0 :: downPath C bs d0 o0 k := by rw [← hcs]; simp [Changeset.nodes, upPath_reverse]
   have hcmt : c.tree.commitable cs = true := by rw [← hcs]; simp [Tree.commitable, Tree.changeset]
+  have henc : Core.encodable cs = true := encodable_of_ref C hC bs cs (fun x hx => by
+    rw [hnodes] at hx
+    obtain ⟨dd, o, e, _⟩ := pathNodes_bound C bs d0 o0 k _ hin x hx
+    exact ⟨dd, o, e⟩)
   have hds : Core.dataStep c d (honestHash C bs c d d0 o0) cs = .ok ([], none) := by
     rw [hp0]; simp [Core.dataStep]
   generalize htr : ({ c.tree with unflushed := insertAll c.tree.unflushed (nodeAt C bs d0 o0 :: downPath C bs d0 o0 k) } : Tree) = tr
@@ -231,7 +235,7 @@ theorem hash_shape (C : Crypto) (hC : HashWF C) (bs : Array Bytes) (c : Core) (d
           journal := (Oplog.appendEntry c.oplog (Core.entryOf cs none c.header).1).2 ++ c1.maybeFlush.2,
           events := Core.appliedEvents (honestHash C bs c d d0 o0) none } := by
     unfold Core.verifyAndApply
-    simp only [hp, ne_eq, not_true_eq_false, ite_false, hvv, hcmt, Bool.not_true, Bool.false_eq_true, hds]
+    simp only [hp, ne_eq, not_true_eq_false, ite_false, hvv, hcmt, Bool.not_true, Bool.false_eq_true, hds, henc, ite_true]
     unfold Core.applyVerified
     simp only [hcommit, Core.finishApply, List.nil_append, ← hc1]
   have hent : (Core.entryOf cs none c.header) = ({ treeNodes := nodeAt C bs d0 o0 :: downPath C bs d0 o0 k, treeUpgrade := none, bitfield := none }, c.header) := by
@@ -251,6 +255,10 @@ theorem hashCore_repr (C : Crypto) (hC : HashWF C) (bs : Array Bytes) (c : Core)
   have hup : cs.upgraded = false := by rw [← hcs]; rfl
   have hnodes : cs.nodes = nodeAt C bs d0 o0 :: downPath C bs d0 o0 k := by rw [← hcs]; simp [Changeset.nodes, upPath_reverse]
   have hcmt : c.tree.commitable cs = true := by rw [← hcs]; simp [Tree.commitable, Tree.changeset]
+  have henc : Core.encodable cs = true := encodable_of_ref C hC bs cs (fun x hx => by
+    rw [hnodes] at hx
+    obtain ⟨dd, o, e, _⟩ := pathNodes_bound C bs d0 o0 k _ hin x hx
+    exact ⟨dd, o, e⟩)
   have hds : Core.dataStep c d (honestHash C bs c d d0 o0) cs = .ok ([], none) := by
     rw [hp0]; simp [Core.dataStep]
   generalize htr : ({ c.tree with unflushed := insertAll c.tree.unflushed (nodeAt C bs d0 o0 :: downPath C bs d0 o0 k) } : Tree) = tr
@@ -265,7 +273,7 @@ theorem hashCore_repr (C : Crypto) (hC : HashWF C) (bs : Array Bytes) (c : Core)
           journal := (Oplog.appendEntry c.oplog (Core.entryOf cs none c.header).1).2 ++ c1.maybeFlush.2,
           events := Core.appliedEvents (honestHash C bs c d d0 o0) none } := by
     unfold Core.verifyAndApply
-    simp only [hp, ne_eq, not_true_eq_false, ite_false, hvv, hcmt, Bool.not_true, Bool.false_eq_true, hds]
+    simp only [hp, ne_eq, not_true_eq_false, ite_false, hvv, hcmt, Bool.not_true, Bool.false_eq_true, hds, henc, ite_true]
     unfold Core.applyVerified
     simp only [hcommit, Core.finishApply, List.nil_append, ← hc1]
   have hj1 : ∀ op ∈ (Oplog.appendEntry c.oplog (Core.entryOf cs none c.header).1).2, op.store = .oplog := Journal.appendEntry_store _ _
@@ -315,6 +323,10 @@ theorem apply_hash (C : Crypto) (hC : HashWF C) (bs : Array Bytes) (c : Core) (d
   have hup : cs.upgraded = false := by rw [← hcs]; rfl
   have hnodes : cs.nodes = nodeAt C bs d0 o0 :: downPath C bs d0 o0 k := by rw [← hcs]; simp [Changeset.nodes, upPath_reverse]
   have hcmt : c.tree.commitable cs = true := by rw [← hcs]; simp [Tree.commitable, Tree.changeset]
+  have henc : Core.encodable cs = true := encodable_of_ref C hC bs cs (fun x hx => by
+    rw [hnodes] at hx
+    obtain ⟨dd, o, e, _⟩ := pathNodes_bound C bs d0 o0 k _ hin x hx
+    exact ⟨dd, o, e⟩)
   have hds : Core.dataStep c d (honestHash C bs c d d0 o0) cs = .ok ([], none) := by
     rw [hp0]; simp [Core.dataStep]
   generalize htr : ({ c.tree with unflushed := insertAll c.tree.unflushed (nodeAt C bs d0 o0 :: downPath C bs d0 o0 k) } : Tree) = tr
@@ -329,7 +341,7 @@ theorem apply_hash (C : Crypto) (hC : HashWF C) (bs : Array Bytes) (c : Core) (d
           journal := (Oplog.appendEntry c.oplog (Core.entryOf cs none c.header).1).2 ++ c1.maybeFlush.2,
           events := Core.appliedEvents (honestHash C bs c d d0 o0) none } := by
     unfold Core.verifyAndApply
-    simp only [hp, ne_eq, not_true_eq_false, ite_false, hvv, hcmt, Bool.not_true, Bool.false_eq_true, hds]
+    simp only [hp, ne_eq, not_true_eq_false, ite_false, hvv, hcmt, Bool.not_true, Bool.false_eq_true, hds, henc, ite_true]
     unfold Core.applyVerified
     simp only [hcommit, Core.finishApply, List.nil_append, ← hc1]
   have hj1 : ∀ op ∈ (Oplog.appendEntry c.oplog (Core.entryOf cs none c.header).1).2, op.store = .oplog := Journal.appendEntry_store _ _
@@ -471,7 +483,7 @@ theorem play_repr (C : Crypto) (hC : HashWF C) (bs : Array Bytes) (pk : Bytes) (
       have hkeep : (c.verifyAndApply C d (honestBlock C bs c d i)).core.publicKey = c.publicKey
           ∧ (c.verifyAndApply C d (honestBlock C bs c d i)).core.tree.fork = c.tree.fork := by
         rw [← honestBlock_extract C bs m c d held h i o1,
-          apply_block_shape C (bs.extract 0 m) c d held hshape i (by rw [size_extract bs m h.le]; exact o1)]
+          apply_block_shape C hC (bs.extract 0 m) c d held hshape i (by rw [size_extract bs m h.le]; exact o1)]
         simp only []
         rw [LiveRefine.maybeFlush_eq]
         split
